@@ -192,16 +192,17 @@ def check(ctx):
               instance="send writes the item, then waits for the write gate")
 
     # ---- R18-c EOF / closed / busy table ------------------------------------------------------------------------------------------------------------
-    ih = [h for h in own_walk(fn) if isinstance(h, ast.ExceptHandler) and "IndexError" in handler_names(h)]
-    if ctx.need("R18-c", rc, "`except IndexError` around the dequeue", len(ih), 1):
-        h = ih[0]
+    # (the "no data left" case is either the IndexError handler of the dequeue or an explicit emptiness test: in both the queue is
+    # known to be empty where the verdict is raised)
+    if True:
+        h = fn
         table = [("raise ClosedResourceError from None", [["self._closed"]], "ClosedResourceError on a locally closed stream once no received data is left"),
                  ("raise BrokenResourceError from self._protocol.exception", [["not self._closed", "self._protocol.exception"]], "BrokenResourceError when the connection was lost with an error"),
                  ("raise EndOfStream from None", [["not self._closed", "not self._protocol.exception"]], "EndOfStream only when neither closed locally nor broken")]
         for pat, dnf, what in table:
             ss = find_all(pat, h)
             if ctx.need("R18-c", rc, f"`{pat}`", len(ss), 1):
-                ctx.require_at("R18-c", rc, ss[0][0], dnf, instance=what, what=pat, native=True)
+                ctx.require_at("R18-c", rc, ss[0][0], [d + [f"not {RQ}"] for d in dnf], instance=what, what=pat, native=True)
     clr = ctx.sites(rc, "self._protocol.read_event.clear()")
     if ctx.need("R18-c", rc, "`self._protocol.read_event.clear()`", len(clr), 1):
         ctx.require_at("R18-c", rc, stmt_of(clr[0][0]), [[f"not {RQ}"]], instance="the read event is cleared only when the queue is empty (else the next receive would block on data already received)",
